@@ -102,6 +102,7 @@ passes unedited after each -- the four `middleware/proxy` tests that need DNS fa
 | C14 | `bd72493` | entry fetched before the lock: two requests expiring the same entry both remove its heap index (panic + deadlock) |
 | C14 | `ce6213b` | `StoreResponseHeaders`: a repeated origin header (`X-Multi: a`, `X-Multi: b`) was served from the cache with its last value only |
 | C18 | `def2740` `335f592` `fa3377b` | cookie jar: purge without write-back, duplicate append / ignored deletions, keys aliasing request buffers and carrying the port |
+| C18 | `ccc461a` `0c1bc9d` | cookies for `http://[2001:db8::1]:8080/` never sent to `http://[2001:db8::1]/`; cookies put into the jar by hand for a host with port / IPv6 literal never returned (found when IPv6 literal hosts were added to `CookieJar.tla`'s host pool) |
 | C18 | `fbc241a` | client timeout released a Response the worker was about to fill (`acquire answer cancel deliver`) |
 | C18 | `fd7a868` | path parameter value `a b&c=d?e` arrived cut at `?` |
 | C10 | `a7429d1` `b3a2d9c` | `Secure()` false on https; proxy listed as `2001:DB8::1` not trusted for peer `2001:db8::1` |
